@@ -333,8 +333,10 @@ def obs_term(T, step, pings_so_far):
                           f"(({mod_term(T, a)}, {T.num(og)}), ({mod_term(T, b)}, {T.num(ig)}))") for a, og, b, ig in step["links"]]
         nc = [T.intern("n", "N * (N * N * Z)", f"({T.num(NH_ID[k])}, ({T.num(g)}, {T.num(mac_int(mac))}, {T.znum(cnt)}))")
               for k, g, mac, cnt in step["nc"]]
-        un = [T.intern("p", "N * (N * N * N)", f"({T.num(NH_ID[k])}, ({T.num(PFX_ID[(p, ln)])}, {T.num(NH_ID[nh])}, {T.num(IF_ID[ifn])}))")
-              for k, p, ln, nh, ifn in step["un"]]
+        un = [T.intern("p", "N * list (N * N * N)",
+                       f"({T.num(NH_ID[k])}, " + glist([f"({T.num(PFX_ID[(p, ln)])}, {T.num(NH_ID[nh])}, {T.num(IF_ID[ifn])})"
+                                                        for p, ln, nh, ifn in rows]) + ")")
+              for k, rows in step["un"]]
         gcd = {}
         for mod, n in step["gc"]:
             if not mod.endswith("Routes") or mod[:-6] not in IF_ID:
@@ -407,7 +409,9 @@ def monitor(c, o):
     k = Kernel()
     fails = []
     seen = set()
-    # bookkeeping for the shapes of the known findings (facts about the HISTORY, not about the code)
+    # bookkeeping for the shapes of the known findings F29c / F40 and for naming the two defects repaired in
+    # /repo 1b62c73 (F29a, F29b) should they come back - they are NOT known findings any more (facts about the
+    # HISTORY, not about the code)
     waiting = {}            # unresolved nh -> [prefix...] kernel routes added while unresolved, oldest first
     overwritten = set()     # prefixes of kernel routes that were waiting when a later route for the same nh arrived
     deleted_pending = set() # (iface, prefix, nh) deleted from the kernel while the next hop was unresolved
@@ -464,7 +468,7 @@ def monitor(c, o):
         poisoned = False
         displaced = set()     # MACs of next hops whose route was overwritten by a stale pending route at this step
         # (iface id, prefix id) written into a lookup table at THIS step, a NEWNEIGH event, although that route was
-        # deleted from the kernel while this very next hop was unresolved: the shape of the known finding F29b
+        # deleted from the kernel while this very next hop was unresolved: the shape of the defect F29b (repaired in 1b62c73; a VIOLATION if seen)
         stale_adds = set()
         if ev[0] == "NN":
             for call in s["calls"]:
@@ -584,7 +588,7 @@ def monitor(c, o):
             # serves both, so gates and reference counts are off from here on, whether or not a sentence failed yet
             poisoned = True
         if poisoned or stale_adds:
-            # a route the kernel no longer has was written into a table at this step (F29b).  If a sentence of C20
+            # a route the kernel no longer has was written into a table at this step (F29b, repaired).  If a sentence of C20
             # fails here it has been reported above; if none does yet (the stale route sits on top of a live route
             # whose next hop happens to have the same MAC) nothing is reported, but reference counts and gates are
             # off from here on, so the rest of this history is not judged.
